@@ -140,6 +140,7 @@ void     vf_each_live(vf_block_cb cb, void *arg);
 uint32_t vf_alloc_serial(void);
 void     vf_arena_range(uintptr_t *lo, uintptr_t *hi);
 void     vf_core_sections(uintptr_t *blo, uintptr_t *bhi, uintptr_t *dlo, uintptr_t *dhi);
+size_t   vf_core_size(void); void vf_core_save(uint8_t *out); void vf_core_load(const uint8_t *in);   /* the core's own writable sections */
 extern void (*vf_on_free)(void *p, size_t size);
 extern void (*vf_on_alloc)(void *p, size_t size);
 extern int vf_cur_iface;         /* serial the next allocation will get */
